@@ -137,7 +137,12 @@ def _run_main(cfg):
             wtaps.clear()
             kept_taps.clear()
             inst = _sym_instances(T, A, N)
-            out = generate_pafs(inst, (H, W), sigma, stride, torch.tensor(edges), True)
+            try:
+                out = generate_pafs(inst, (H, W), sigma, stride, torch.tensor(edges), True)
+            except Exception as e:  # noqa  (the generator must produce a field -- possibly all zero -- for EVERY instances array)
+                if isinstance(e, xf.EngineGap):
+                    raise
+                return inst, ("EXC", e), [], [], [], []
         return inst, out, list(taps), [(a, v) for k, (a, v) in CTX.memo.items() if k[0] == "sqrt"], list(kept_taps), list(wtaps)
 
     two_s2 = Fraction(2 * sigma ** 2)
@@ -146,6 +151,13 @@ def _run_main(cfg):
         rep.nontrivial_paths += 1
         kv = inst.values()
         env0 = None
+        if isinstance(out, tuple) and out and out[0] == "EXC":
+            from symx.explorer import model_env as _me, DefaultEnv as _DE
+            mo_ = ex.full_model()
+            rep.record("T-no-exception", "sat")
+            rep.violation("T-no-exception", f"exception:{type(out[1]).__name__}", f"generate_pafs raised {type(out[1]).__name__}: {str(out[1])[:120]}", extract(mo_, _DE(_me(mo_))))
+            continue
+        rep.record("T-no-exception", "unsat")
 
         def K(a, n):
             return kv[(a * N + n) * 2], kv[(a * N + n) * 2 + 1]
@@ -435,8 +447,12 @@ def replay(cfg, inputs, obligation):
     em_.gaussian_pdf = _pdf
     try:
         out = generate_pafs(inst.clone(), (H, W), sigma, stride, torch.tensor(edges), True).numpy().astype(np.float64)
+    except Exception as e:  # noqa
+        return obligation.startswith("T-"), f"generate_pafs raised {type(e).__name__}: {e} for instances {inst.reshape(-1, 2).tolist()}"
     finally:
         em_.gaussian_pdf = real_pdf
+    if obligation.startswith("T-"):
+        return False, "no exception"
     if obligation.startswith("S5"):
         if A == 1 and len(wseen) == 1:
             wts = wseen[0].numpy().astype(np.float64)  # (gh, gw, E): the code's own weights
